@@ -54,6 +54,20 @@ def gen(rng, tier):
     for _ in range(40 if tier == "quick" else 400):
         ds = [L.g_seg(rng) if rng.random() < 0.7 else L.g_foreign(rng) for _ in range(rng.randrange(3, 7))]
         add(L.g_signal(rng, descs=ds), "many-descriptors")
+    # descriptors at the size limit: descriptor_length 250..255 (one byte length; a decoder that does the loop
+    # arithmetic in uint8 wraps exactly here), as foreign descriptors and as segmentation descriptors with a long UPID,
+    # alone, first, last and in the middle of the loop
+    for dl in (250, 253, 254, 255):
+        for pos in range(3):
+            big = [1, rng.choice([0, 1, 0x80, 0xFF]), L.g_bytes(rng, dl)]
+            others = [L.g_seg(rng) for _ in range(2)]
+            ds = others[:pos] + [big] + others[pos:]
+            add(L.g_signal(rng, descs=ds, pf=nextpf()), "max-descriptor")
+        add(L.g_signal(rng, descs=[[1, 3, L.g_bytes(rng, dl)]], pf=0), "max-descriptor")
+    for _ in range(12 if tier == "quick" else 120):
+        d = L.g_seg(rng)
+        # grow the descriptor to the limit through its UPID when it has a plain one
+        add(L.g_signal(rng, descs=[d, [1, 0x80, L.g_bytes(rng, rng.choice([200, 240, 254, 255]))]], pf=nextpf()), "max-descriptor")
     # the four rejections
     for _ in range(30 if tier == "quick" else 300):
         ty = rng.choice([4, 7, 255, 1, 2, 3, 8, rng.randrange(7, 256)])
